@@ -16,5 +16,6 @@ impl Script {
 //@fn Script::to_bytes
 //@fn Script::get_script_length
 }
+//@prooffn OpCodes::wire_values spec/opcode_table.rs @ src/script/op_codes.rs
 } // verus!
 fn main() {}
